@@ -15,7 +15,7 @@
 (* The reader is a cursor `cur` into the concatenation All of the files:   *)
 (* cur = c means "lines All[c], All[c-1], ..., All[1] are still to be      *)
 (* returned, in that order"; cur = 0 is end-of-log; cur = -1 is a reader   *)
-(* on which no seek has been made yet (the statement says nothing about    *)
+(* on which no seek has SUCCEEDED yet (the statement says nothing about    *)
 (* reads from such a reader, so ReadNext is not enabled there).            *)
 (*                                                                         *)
 (* Two API levels are described by the same actions (variable `level`):    *)
@@ -70,11 +70,17 @@ IsPresent(a, t) == LET k == Below(a, t) IN k < Len(a) /\ a[k + 1].ts = t
 \* ---------------------------------------- what a seek may answer (oracle)
 (***************************************************************************)
 (* SeekOutcomes(fs, lvl, t) is the SET of admissible (reply, new cursor)   *)
-(* pairs of a seek to timestamp t.  new cursor -2 stands for "any proper   *)
-(* cursor 0..N": the statement demands that a failed seek does not         *)
-(* mis-position SUBSEQUENT reads, i.e. that they still are a contiguous    *)
-(* run ... , All[2], All[1] returning every line at most once; it does not *)
-(* say where that run has to begin.                                        *)
+(* pairs of a seek to timestamp t.  New cursor -2 stands for "the cursor   *)
+(* the reader had before the seek": a seek that reports an error is a      *)
+(* no-op on the read position.  That is the statement's last clause --     *)
+(* "reports not-found, too-early or too-late without ever ... mis-         *)
+(* positioning subsequent reads": the reads that follow the report go on   *)
+(* exactly where they were (All[cur], All[cur-1], ...), on a single file   *)
+(* and on the two-file reader alike, whichever file the search looked      *)
+(* into.  (No caller in the repository reads after a failed seek --        *)
+(* search.go closes the reader -- so the statement is the only source, and *)
+(* "unchanged" is the only position it can be referring to; a reader that  *)
+(* was never positioned stays never positioned.)                           *)
 (*                                                                         *)
 (* Present timestamp (both levels): exactly one outcome -- ok, and the     *)
 (* next read returns that very line.                                       *)
@@ -159,7 +165,7 @@ SeekFound(t) ==
 \* SeekTS to an absent timestamp, reported as an error of class e.
 SeekAbsentError(t, e) ==
     /\ Err(e) \in SeekOutcomes(files, level, t)
-    /\ cur' \in 0..N                 \* any proper cursor, see SeekOutcomes
+    /\ cur' = cur                     \* the read position is untouched, see SeekOutcomes
     /\ out' = Reply("seek", t, e, 0)
 
 \* The documented behaviour of qLogReader.seekTS: "Just seek to the start
